@@ -64,7 +64,10 @@ func startFallback(i int, mode string) (addr string, stop func()) {
 	started := make(chan struct{})
 	srv.NotifyStartedFunc = func() { close(started) }
 	go func() { _ = srv.ActivateAndServe() }()
-	<-started
+	select {
+	case <-started:
+	case <-time.After(3 * time.Second):
+	}
 	return addr, func() { _ = srv.Shutdown() }
 }
 
